@@ -29,7 +29,7 @@ pub struct SeedDoc {
 pub const ENTRIES: &[&str] = &[
     "policies_text", "policy_text", "template_text", "expression_text", "restricted_expression_text", "euid_text", "schema_cedar", "schema_json", "entities_json", "entity_json", "context_json", "policy_json", "policyset_json",
     "proto_policyset", "proto_entities", "proto_schema", "proto_template", "proto_expression", "proto_entity", "proto_request", "ffi_is_authorized", "ffi_validate", "ffi_format", "ffi_check_parse_policy_set", "ffi_check_parse_schema",
-    "ffi_check_parse_entities", "ffi_check_parse_context", "reader_entities", "reader_schema_cedar", "reader_schema_json", "reader_policyset_json", "reader_context", "writer_entities",
+    "ffi_check_parse_entities", "ffi_check_parse_context", "ffi_format_raw", "reader_entities", "reader_schema_cedar", "reader_schema_json", "reader_policyset_json", "reader_context", "writer_entities",
 ];
 
 fn native_entries(kind: &str) -> &'static [&'static str] {
@@ -54,6 +54,7 @@ fn native_entries(kind: &str) -> &'static [&'static str] {
         "ffi_check_parse_policy_set" => &["ffi_check_parse_policy_set"],
         "ffi_check_parse_entities" => &["ffi_check_parse_entities"],
         "ffi_check_parse_context" => &["ffi_check_parse_context"],
+        "ffi_format" => &["ffi_format_raw"],
         _ => &["entities_json", "context_json", "policy_json", "schema_json"],
     }
 }
@@ -150,6 +151,17 @@ const GENERATED_ODD: &[(&str, &str)] = &[
     ("policies", "@a(\"x\")\n// comment between annotation and effect\npermit // c1\n( // c2\nprincipal, // c3\naction, resource) // c4\nwhen // c5\n{ true // c6\n} // c7\n; // c8"),
     ("policies", "permit(principal, action, resource)\r\nwhen {\r\n\ttrue // crlf\r\n};\r\n"),
     ("policies", "permit(principal, action, resource) when { if true then 1 };"),
+    ("ffi_format", r#"{"policyText": "permit(principal, action, resource) when { principal.a && [1, 2, 3].contains(1) };", "lineWidth": 1, "indentWidth": 3}"#),
+    ("ffi_format", r#"{"policyText": "// c
+permit(principal, action, resource);", "lineWidth": 0, "indentWidth": -5}"#),
+    ("ffi_format", r#"{"policyText": "permit(principal, action, resource);", "lineWidth": 18446744073709551615, "indentWidth": 0}"#),
+    ("policies", "permit(principal, // who\r// really who\naction, resource);"),
+    ("policies", "permit(principal, action, resource) // a\r\x0c// b\x0b\n when { true /* c \r */ } ; // \u{85} \u{2028} end\r"),
+    ("policies", "\u{feff}permit(principal, action, resource);\t// bom and tab\n\n\n"),
+    ("policies", "permit(principal, action, resource) when { [ip(\"1.2.3.4\"), decimal(\"1.0\")].contains(ip(\"1.2.3.4\")) };\npermit(principal, action, resource) when { [datetime(\"2024-01-01\"), duration(\"1d\"), ip(\"::1\"), decimal(\"0.1\")].containsAll([duration(\"1d\"), decimal(\"0.1\")]) };\npermit(principal, action, resource) when { [decimal(\"1.0\"), 1, \"1\", ip(\"1.1.1.1\"), principal, {\"a\": ip(\"1.1.1.1\")}, [duration(\"1s\")]].contains([duration(\"1s\")]) };"),
+    ("entities_json", r#"[{"uid": {"type": "U", "id": "a"}, "attrs": {"s": [{"__extn": {"fn": "decimal", "arg": "1.0"}}, {"__extn": {"fn": "ip", "arg": "1.2.3.4"}}, {"__extn": {"fn": "datetime", "arg": "2024-01-01"}}, {"__extn": {"fn": "duration", "arg": "1h"}}], "u": {"__extn": {"fn": "unknown", "arg": "u"}}}, "parents": []}]"#),
+    ("context_json", r#"{"s": [{"__extn": {"fn": "duration", "arg": "1h"}}, {"__extn": {"fn": "decimal", "arg": "1.0"}}], "u": {"__extn": {"fn": "unknown", "arg": "u"}}}"#),
+    ("schema_json", r#"{"": {"entityTypes": {"E": {"memberOfTypes": []}}, "actions": {"a": {"memberOf": [], "appliesTo": {"principalTypes": ["E"], "resourceTypes": ["E"], "context": {"type": "Record", "attributes": {}}}}, "b": {"memberOf": [{"id": "a"}], "appliesTo": {"principalTypes": [], "resourceTypes": []}}}}}"#),
     // JSON policies (EST)
     ("policy_json", r#"{"effect": "permit", "principal": {"op": "All"}, "action": {"op": "All"}, "resource": {"op": "All"}, "conditions": [{"kind": "when", "body": {"if-then-else": {"if": {"Value": true}, "then": {"Value": 1}}}}]}"#),
     ("policy_json", r#"{"effect": "permit", "principal": {"op": "All"}, "action": {"op": "All"}, "resource": {"op": "All"}, "conditions": [{"kind": "when", "body": {"like": {"left": {"Value": "x"}, "pattern": ["Wildcard", {"Literal": ""}, {"Other": 1}, "wildcard"]}}}]}"#),
@@ -223,7 +235,25 @@ const VAL_POLICIES: &[&str] = &[
     r#"permit(principal == ?principal, action == Org::Action::"read", resource in ?resource) when { principal.addr.street like "*a*" };"#,
     r#"permit(principal, action == Org::Action::"read", resource) when { principal.addr.geo.lat.lessThan(decimal("2.0")) && ip(principal.addr.street).isLoopback() && decimal(principal.addr.street) == decimal("1.0") };"#,
     r#"forbid(principal, action == Org::Action::"read", resource) unless { (if principal has boss then principal.boss else principal).peers.isEmpty() };"#,
+    // scope / action-application mismatches (each produces a different diagnostic with help text)
+    r#"permit(principal, action == Org::Action::"write all", resource == Org::Person::"ann");"#,
+    r#"permit(principal == Top::"x", action == Org::Action::"read", resource);"#,
+    r#"permit(principal == Org::Team::"t0", action == Org::Action::"read", resource == Org::Plain::"p");"#,
+    r#"permit(principal in Org::Kind::"staff", action in [Org::Action::"read", Action::"top"], resource in Top::"x");"#,
+    r#"permit(principal is Org::Plain, action, resource is Org::Kind);"#,
+    r#"permit(principal, action == Org::Action::"nosuch", resource) when { resource.nope };"#,
+    r#"permit(principal, action in [Org::Action::"base"], resource is Top in Org::Team::"t0") when { principal.kind.x || principal.peers.y || context.z };"#,
 ];
+
+/// a second synthetic bundle: record-typed and set-typed tags, entities that do and do not fit them
+const TAGS_SCHEMA: &str = "entity User tags { a: Long, b?: Set<{ c: String }> };\nentity Group tags Set<{ a: Long }>;\nentity Plain;\naction view appliesTo { principal: [User], resource: [Group, Plain], context: { r: { a: Long }, s: Set<{ a: Long }> } };";
+const TAGS_ENTITIES: &[&str] = &[
+    r#"[{"uid": {"type": "User", "id": "a"}, "attrs": {}, "parents": [], "tags": {"k": {"a": 1}, "l": {"a": 2, "b": [{"c": "x"}]}}}, {"uid": {"type": "Group", "id": "g"}, "attrs": {}, "parents": [], "tags": {"k": [{"a": 1}, {"a": 2}]}}]"#,
+    r#"[{"uid": {"type": "User", "id": "a"}, "attrs": {}, "parents": [], "tags": {"k": 5, "l": "x", "m": [1], "n": null, "o": {"a": "s"}}}]"#,
+    r#"[{"uid": {"type": "Group", "id": "g"}, "attrs": {}, "parents": [], "tags": {"k": [{"a": 1}, "oops"], "l": {"a": 1}, "m": [[{"a": 1}]], "n": [5]}}]"#,
+    r#"[{"uid": {"type": "Plain", "id": "p"}, "attrs": {}, "parents": [], "tags": {"k": 1}}, {"uid": {"type": "User", "id": "b"}, "attrs": {"x": 1}, "parents": [{"type": "Plain", "id": "p"}], "tags": {}}]"#,
+];
+const TAGS_CONTEXTS: &[&str] = &[r#"{"r": {"a": 1}, "s": [{"a": 1}]}"#, r#"{"r": 5, "s": [{"a": 1}, "oops"]}"#, r#"{"r": [], "s": {"a": 1}}"#];
 
 const GENERATED_EXPRS: &[&str] = &["1 + 2", "principal.a.b has c", r#"User::"a""#, r#"[1, "a", {"k": User::"b"}]"#, r#"ip("1.2.3.4")"#, r#"if context.x then principal else resource"#, r#"-9223372036854775808"#, r#"--1"#, r#""\u{10FFFF}" like "*""#, r#"a::b::"c""#];
 
@@ -352,6 +382,15 @@ pub fn pools() -> &'static Pools {
         for (i, pol) in VAL_POLICIES.iter().enumerate() {
             seeds.push(SeedDoc { name: format!("cli__genval__gen_policy{i}.cedar"), kind: "policies", bytes: pol.as_bytes().to_vec() });
         }
+        seeds.push(SeedDoc { name: "cli__gentags__schema.cedarschema".into(), kind: "schema_cedar", bytes: TAGS_SCHEMA.as_bytes().to_vec() });
+        for (i, e) in TAGS_ENTITIES.iter().enumerate() {
+            // the first one is the bundle's own store; the others are documents that must be rejected
+            seeds.push(SeedDoc { name: if i == 0 { "cli__gentags__entities.json".to_string() } else { format!("cli__gentags__gen_more_entities{i}.json") }, kind: "entities_json", bytes: e.as_bytes().to_vec() });
+        }
+        for (i, c) in TAGS_CONTEXTS.iter().enumerate() {
+            seeds.push(SeedDoc { name: format!("cli__gentags__gen_context{i}.json"), kind: "context_json", bytes: c.as_bytes().to_vec() });
+        }
+        seeds.push(SeedDoc { name: "cli__gentags__gen_policy.cedar".into(), kind: "policies", bytes: br#"permit(principal, action == Action::"view", resource) when { principal.hasTag("k") && principal.getTag("k").a > 0 && context.r.a == 1 && context.s.contains({"a": 1}) };"#.to_vec() });
         for (i, body) in GENERATED_EVAL.iter().enumerate() {
             seeds.push(SeedDoc { name: format!("gen_eval_{i}"), kind: "policies", bytes: format!("permit(principal, action, resource) when {{ {body} }};\nforbid(principal, action, resource) unless {{ {body} }};").into_bytes() });
             seeds.push(SeedDoc { name: format!("gen_eval_expr_{i}"), kind: "expression", bytes: body.as_bytes().to_vec() });
@@ -660,7 +699,7 @@ pub struct Case {
 }
 
 const TOKEN_DOC_ENTRIES: &[&str] = &["policies_text", "schema_cedar", "expression_text"];
-const TOKENS: &[&str] = &["permit", "forbid", "when", "unless", "principal", "action", "resource", "context", "&&", "||", "==", "in", "has", "like", "is", "if", "then", "else", "::", "?principal", "?resource", "(", ")", "{", "}", "[", "]", "\"", "\\", "@", ";", ",", ".", "-", "!", "\\u{", "__entity", "__extn", "null", "true", "9223372036854775808", "\u{1F600}", "\0", "entity", "namespace", "appliesTo", "Set<", ">", "type", "__cedar", "__cedar::", "\u{661}", "\u{ff10}", "[]", "{}", "in []", "action", "::\"\"", "*", "ip(", "decimal(", "datetime(", "duration("];
+const TOKENS: &[&str] = &["permit", "forbid", "when", "unless", "principal", "action", "resource", "context", "&&", "||", "==", "in", "has", "like", "is", "if", "then", "else", "::", "?principal", "?resource", "(", ")", "{", "}", "[", "]", "\"", "\\", "@", ";", ",", ".", "-", "!", "\\u{", "__entity", "__extn", "null", "true", "9223372036854775808", "\u{1F600}", "\0", "entity", "namespace", "appliesTo", "Set<", ">", "type", "__cedar", "__cedar::", "\u{661}", "\u{ff10}", "[]", "{}", "in []", "action", "::\"\"", "*", "ip(", "decimal(", "datetime(", "duration(", "\r", "//", "/*", "*/", "\t", "unknown(\"u\")"];
 
 fn hex(b: &[u8]) -> String {
     let mut s = String::with_capacity(b.len() * 2);
@@ -1012,6 +1051,22 @@ impl Write for FaultyWriter<'_> {
 
 // ------------------------------------------------------------------ pipelines
 
+/// every way a user might look at a diagnostic: message, help, code, labels, related, and the
+/// graphical / narratable / JSON renderings
+fn render_diag<E: miette::Diagnostic + Send + Sync + 'static>(e: E) -> usize {
+    let mut n = e.to_string().len();
+    n += e.help().map(|h| h.to_string().len()).unwrap_or(0);
+    n += e.code().map(|h| h.to_string().len()).unwrap_or(0);
+    n += e.labels().map(|l| l.count()).unwrap_or(0);
+    n += e.related().map(|l| l.count()).unwrap_or(0);
+    let r = miette::Report::new(e);
+    let mut out = String::new();
+    let _ = miette::GraphicalReportHandler::new_themed(miette::GraphicalTheme::unicode_nocolor()).render_report(&mut out, r.as_ref());
+    let _ = miette::NarratableReportHandler::new().render_report(&mut out, r.as_ref());
+    let _ = miette::JSONReportHandler::new().render_report(&mut out, r.as_ref());
+    n + out.len() + format!("{r:?}").len()
+}
+
 struct Pipe<'a> {
     case: &'a Case,
     obs: &'a mut Obs,
@@ -1145,9 +1200,11 @@ impl Pipe<'_> {
                     for e in res.validation_errors() {
                         let _ = e.to_string();
                         let _ = format!("{e:?}");
+                        let _ = render_diag(e.clone());
                     }
                     for w in res.validation_warnings() {
                         let _ = w.to_string();
+                        let _ = render_diag(w.clone());
                     }
                     let r = miette::Report::new(res).with_source_code(t);
                     let _ = format!("{r:?}");
@@ -1157,7 +1214,14 @@ impl Pipe<'_> {
         self.stage("validate_with_level", || v.validate_with_level(ps, ValidationMode::Strict, 1).validation_passed());
         for r in &p.requests {
             if let Some(resp) = self.stage("authorize", || Authorizer::new().is_authorized(r, ps, &p.entities)) {
-                self.stage("render auth errors", || resp.diagnostics().errors().map(|e| format!("{e} {e:?}").len()).sum::<usize>());
+                self.stage("render auth errors", || {
+                    let mut n = 0;
+                    for e in resp.diagnostics().errors() {
+                        n += format!("{e} {e:?}").len();
+                        n += render_diag(e.clone());
+                    }
+                    n
+                });
             }
         }
         // the documents stored next to this one: its own entities, schema and requests
@@ -1165,13 +1229,29 @@ impl Pipe<'_> {
             self.obs.count("reach.evaluated_against_own_bundle");
             for r in &b.requests {
                 if let Some(resp) = self.stage("authorize (bundle)", || Authorizer::new().is_authorized(r, ps, &b.entities)) {
-                    self.stage("render auth errors (bundle)", || resp.diagnostics().errors().map(|e| format!("{e} {e:?}").len()).sum::<usize>());
+                    self.stage("render auth errors (bundle)", || {
+                        let mut n = 0;
+                        for e in resp.diagnostics().errors() {
+                            n += format!("{e} {e:?}").len();
+                            n += render_diag(e.clone());
+                        }
+                        n
+                    });
                 }
             }
             if let Some(sc) = &b.schema {
                 let v = Validator::new(sc.clone());
                 if let Some(res) = self.stage("validate (bundle schema)", || v.validate(ps, ValidationMode::Strict)) {
-                    self.stage("render validation result (bundle)", move || res.to_string().len() + res.validation_errors().map(|e| format!("{e:?}").len()).sum::<usize>());
+                    self.stage("render validation result (bundle)", move || {
+                        let mut n = res.to_string().len();
+                        for e in res.validation_errors() {
+                            n += format!("{e:?}").len() + render_diag(e.clone());
+                        }
+                        for w in res.validation_warnings() {
+                            n += render_diag(w.clone());
+                        }
+                        n
+                    });
                 }
                 for level in 0..3u32 {
                     self.stage("validate_with_level (bundle schema)", || v.validate_with_level(ps, if level == 1 { ValidationMode::Strict } else { ValidationMode::Permissive }, level).to_string().len());
@@ -1330,6 +1410,14 @@ impl Pipe<'_> {
                 }
             }
             "entities_json" => {
+                let bundle_schema = p.bundles.get(&bundle_key(&self.case.seed_name)).and_then(|b| b.schema.clone());
+                if let Some(bs) = &bundle_schema {
+                    match self.stage("Entities::from_json_str (bundle schema)", || Entities::from_json_str(text, Some(bs))) {
+                        Some(Ok(es)) => self.entities_pipeline(&es),
+                        Some(Err(e)) => self.render("entities error", e, text),
+                        None => {}
+                    }
+                }
                 for sch in [None, Some(&schema)] {
                     match self.stage("Entities::from_json_str", || Entities::from_json_str(text, sch)) {
                         Some(Ok(es)) => self.entities_pipeline(&es),
@@ -1500,6 +1588,11 @@ impl Pipe<'_> {
                     self.stage("ffi::template_to_json", || serde_json::to_string(&ffi::template_to_json(t)).is_ok());
                 }
             }
+            "ffi_format_raw" => {
+                if self.stage("ffi::format_json_str (raw envelope)", || ffi::format_json_str(text).is_ok()) == Some(true) {
+                    self.obs.count("reach.parsed_ok");
+                }
+            }
             "ffi_check_parse_policy_set" => {
                 if self.stage("ffi::check_parse_policy_set_json_str", || ffi::check_parse_policy_set_json_str(text).is_ok()) == Some(true) {
                     self.obs.count("reach.parsed_ok");
@@ -1585,12 +1678,14 @@ impl Pipe<'_> {
 /// Documents on which some pipeline stage is known, or suspected, to take time exponential in a
 /// nesting depth that is within the property's bound. They run in a child process of their own
 /// with a wall-clock limit, so that one of them costs seconds, not the watchdog's minutes.
-pub fn designated_slow() -> Vec<(String, String)> {
+pub fn designated_slow() -> Vec<(String, String, String)> {
     let d = 40;
     vec![
-        ("gen_exptime_is_in_nest_40".to_string(), format!("permit(principal, action, resource) when {{ {}principal{} }};", "(".repeat(d), " is User in resource)".repeat(d))),
-        ("gen_exptime_has_chain_nest_40".to_string(), format!("permit(principal, action, resource) when {{ {}principal{} }};", "(".repeat(d), " has a.b)".repeat(d))),
-        ("gen_else_if_chain_48".to_string(), format!("permit(principal, action, resource) when {{ {} true }};", "if context.n > 0 then false else ".repeat(MAX_DEPTH))),
+        ("gen_exptime_is_in_nest_40".to_string(), "policies_text".to_string(), format!("permit(principal, action, resource) when {{ {}principal{} }};", "(".repeat(d), " is User in resource)".repeat(d))),
+        ("gen_exptime_has_chain_nest_40".to_string(), "policies_text".to_string(), format!("permit(principal, action, resource) when {{ {}principal{} }};", "(".repeat(d), " has a.b)".repeat(d))),
+        ("gen_else_if_chain_48".to_string(), "policies_text".to_string(), format!("permit(principal, action, resource) when {{ {} true }};", "if context.n > 0 then false else ".repeat(MAX_DEPTH))),
+        // the formatter's work (and output) is proportional to the indent width it is asked for
+        ("gen_format_huge_indent".to_string(), "ffi_format_raw".to_string(), r#"{"policyText": "permit(principal, action, resource) when { principal.a && [1, 2, 3].contains(1) };", "lineWidth": 1, "indentWidth": 400000000}"#.to_string()),
     ]
 }
 
@@ -1679,8 +1774,8 @@ impl World for StorageFaults {
         let schema = knobs.below(4) as u8;
         let slow = designated_slow();
         if (index as usize) < slow.len() {
-            let (name, text) = &slow[index as usize];
-            return Case { hash_seed: hs.next(), entry: "policies_text".into(), seed_name: name.clone(), bytes_hex: hex(text.as_bytes()), faults: vec![], stack_mib: 64, reader, line_width: 80, indent: 2, schema: 0, time_limit_s: Some(20) };
+            let (name, entry, text) = &slow[index as usize];
+            return Case { hash_seed: hs.next(), entry: entry.clone(), seed_name: name.clone(), bytes_hex: hex(text.as_bytes()), faults: vec![], stack_mib: 64, reader, line_width: 80, indent: 2, schema: 0, time_limit_s: Some(20) };
         }
         let index = index.wrapping_sub(slow.len() as u64);
         if (index as usize) < exhaustive.len() && exhaustive[index as usize].1 == 6 {
@@ -1736,7 +1831,8 @@ impl World for StorageFaults {
                 }
             };
             let entries = native_entries(s.kind);
-            return Case { hash_seed: hs.next(), entry: entries[(pos as usize + si as usize) % entries.len()].to_string(), seed_name: s.name.clone(), bytes_hex: hex(&b), faults: vec![fault.to_string()], stack_mib, reader, line_width, indent, schema, time_limit_s: None };
+            let which = if kind <= 1 { (pos as usize + si as usize) % entries.len() } else { 0 };
+            return Case { hash_seed: hs.next(), entry: entries[which].to_string(), seed_name: s.name.clone(), bytes_hex: hex(&b), faults: vec![fault.to_string()], stack_mib, reader, line_width, indent, schema, time_limit_s: None };
         }
         let si = rng.below(p.seeds.len());
         let s = &p.seeds[si];
